@@ -156,6 +156,36 @@ def kwarg(call: ast.Call, name: str) -> ast.AST | None:
     return None
 
 
+def argval(prog, fi, call: ast.Call, name: str) -> ast.AST | None:
+    """the expression a call binds to the parameter `name` of its callee: the keyword when it is written, otherwise
+    the positional argument at the parameter's place in the signature of the (precisely resolved) callee(s) of the
+    package — the program model passes every argument that can be positional by position (canonical form)"""
+    k = kwarg(call, name)
+    if k is not None:
+        return k
+    try:
+        tg = prog.resolve_call(fi, call)
+    except Exception:  # noqa: BLE001
+        return None
+    idx = set()
+    for t in list(tg.funcs()) + [prog.find_method(c, "__init__") for c in tg.classes()]:
+        if t is None:
+            continue
+        a = t.node.args
+        pos = [p_.arg for p_ in [*a.posonlyargs, *a.args]]
+        bound = (t.cls is not None and not t.is_staticmethod) and not (
+            isinstance(call.func, ast.Attribute) and isinstance(call.func.value, ast.Name) and call.func.value.id[:1].isupper() and not t.is_classmethod and bool(prog.find_classes(call.func.value.id))
+        )
+        if bound:
+            pos = pos[1:]
+        idx.add(pos.index(name) if name in pos else None)
+    if len(idx) == 1:
+        i = next(iter(idx))
+        if i is not None and i < len(call.args) and not any(isinstance(x, ast.Starred) for x in call.args[: i + 1]):
+            return call.args[i]
+    return None
+
+
 def mentions_name(expr: ast.AST, names) -> bool:
     names = set(names)
     return any(isinstance(x, ast.Name) and x.id in names for x in ast.walk(expr))
